@@ -444,11 +444,14 @@ def make_monitored_solver(problem, params, extra_callbacks=0):
         def perform_iteration(self, x0=None, y0=None):
             # recorded into a trace of its own (must not touch the trace of an earlier solve)
             keep = self.trace
+            keep_active = ACTIVE.get("trace")
             self.trace = Trace()
+            ACTIVE["trace"] = self.trace
             try:
                 return super().perform_iteration(x0, y0)
             finally:
                 self.trace = keep
+                ACTIVE["trace"] = keep_active
 
         def solve(self, x0=None, y0=None):
             self.trace = Trace()
